@@ -821,6 +821,30 @@ theorem checker_iflet_decided (sig : Sig) (cx : Cx) (hcx : CxOk sig cx) (hinh : 
   obtain ⟨n, u, h1, h2⟩ := checker_iflet_exact_src sig cx hcx hinh src t hwf
   exact ⟨u, isAdditionalPatternUseful_eq cx _ _ n u h1, h2⟩
 
+/-- **Object patterns: a field's sub-pattern lands in the column of the field's declaration index**,
+in whatever order the fields are written; columns of fields that are not named hold `_`
+(main_checker.rs:1266-1345, `abstract_pattern_nodes[*field_order] = abstract_node`). -/
+theorem object_pattern_columns (sig : Sig) (w : Bool) (t : Nat) (fs : List (Nat × Nat))
+    (hs : sig t = .struct fs) (names : List Nat) (ps : List SPat)
+    (hnd : nodupNat names = true) (hk : ∀ n ∈ names, fieldIndex fs n ≠ none) :
+    ∃ cols, (normalize sig w (.object names ps) (some t)).pat = .struct none cols ∧
+      cols.length = fs.length ∧
+      (∀ (k name : Nat) (p : SPat) (i ty : Nat), names[k]? = some name → ps[k]? = some p → fieldIndex fs name = some (i, ty) →
+        cols[i]? = some (normalize sig w p (some ty)).pat) ∧
+      (∀ (j : Nat), j < fs.length → (∀ n ∈ names, ∀ (i ty : Nat), fieldIndex fs n = some (i, ty) → i ≠ j) →
+        cols[j]? = some .wild) := by
+  refine ⟨(normObject sig w fs ps names (wilds fs.length)).pats, by simp [normalize, sigAt, hs], ?_, ?_, ?_⟩
+  · rw [normObject_length, wilds_length]
+  · intro k name p i ty hn hp hf
+    have hi : i < (wilds fs.length).length := by
+      have := List.getElem?_eq_some_iff.mp (fieldIndex_some fs name i ty hf)
+      obtain ⟨h, _⟩ := this
+      simpa [wilds_length] using h
+    exact normObject_column sig w fs ps names _ k name p i ty hnd hk hn hp hf hi
+  · intro j hj hne
+    rw [normObject_other sig w fs ps names _ j hk hne]
+    simp [wilds, hj]
+
 /-! ### Every hypothesis decided by computation (what a replayed case certifies)
 
 For a finite type table, `cxOkCheck`, `nodupCheck`, `rankCheck` and `swf` are executable; the driver
@@ -944,6 +968,9 @@ example : smatch sigEx (.object [1, 0] [.variant 0 [], .variant 0 []]) 3
     (.con none [.con (some ⟨0, 0⟩) [], .con (some ⟨1, 0⟩) []]) = true := by decide
 example : smatch sigEx (.object [1, 0] [.variant 0 [], .variant 0 []]) 3
     (.con none [.con (some ⟨0, 1⟩) [.prim 5], .con (some ⟨1, 0⟩) []]) = false := by decide
+-- `{ b as Nil, a as None }` on `Pair(a: Opt, b: List)`: written second, `a`'s sub-pattern is column 0
+example : (normalize sigEx true (.object [1, 0] [.variant 0 [], .variant 0 []]) (some 3)).pat =
+    .struct none [.struct (some ⟨0, 0⟩) [], .struct (some ⟨1, 0⟩) []] := by rfl
 -- fuel-free, both directions, on the example signature
 example : ∃ n res, (∀ m, n ≤ m → incompleteCounterexampleF cxEx m [pNone, pSome .wild] = some res) ∧
     (res = none ↔ ∀ v, hasTy sigEx v 1 = true → ∃ a ∈ [pNone, pSome .wild], pmatch a v = true) := by
